@@ -1,5 +1,6 @@
 """C16 — constraints enforced by DIP.parse: correspondence (impl vs Lean model of the validation loop) and
 oracle (impl vs the Lean specification `holds`, evaluated independently on the final values)."""
+import copy
 import os
 import re
 import shutil
@@ -10,10 +11,13 @@ from harness import core
 from harness.core import Ctx
 from harness.props import c18
 
-RULE = ("DIP texts with 1-3 context nodes and 1-2 constrained nodes (float with unit, int with and without unit, str, bool, float/int arrays "
-        "of declared rank 1-2) carrying a random subset of {options per line, options list, !condition, !format, dimension bounds, declaration "
+RULE = ("DIP texts with 4 context nodes and 1-2 constrained nodes (float with unit, int with and without unit, str incl. the empty text and "
+        "none, bool, float/int arrays of declared rank 1-2, nodes whose value is delivered by a registered function as python scalar/list, numpy "
+        "value or typed DIP value in another unit) carrying a random subset of {options per line, options list, !condition, !format, dimension bounds, declaration "
         "only}; values on / within 0.4e-6 of / 3e-6 off / far off each boundary, int nodes against non-integer bounds written directly or arising "
-        "from a unit conversion, node reference on either side of the comparison; options and bounds in other units of the same dimension (custom "
+        "from a unit conversion, node reference on either side of the comparison; conditions that use {?} two or three times against different partners (another typed "
+        "node in another unit, a literal with unit, a unit-less literal); int options that are integers of a finer unit but not of the node's unit; "
+        "formats that accept / reject the empty text; options and bounds in other units of the same dimension (custom "
         "$units included); array values of lower, equal and higher rank than declared, given in the definition, a modification or a sliced "
         "reference; the constrained node is defined in place, or in a group and imported from a local path ({?defs.*}, {?defs.q}) or from a remote "
         "$source file ({src?defs.*}), and then modified 0-3 times (also in other units); real DIP.parse accepts or raises; the values every node "
@@ -22,7 +26,11 @@ RULE = ("DIP texts with 1-3 context nodes and 1-2 constrained nodes (float with 
         "or a modification, or an import; distinct = the text")
 ASSUMPTIONS = [
     "options are written in units of the node's dimension (an inconvertible option is refused when it is registered); options of int nodes "
-    "are integers in the unit they are written in",
+    "are integers in the unit they are written in (not necessarily in the node's unit)",
+    "a node without value (none) is judged violated as soon as it carries options or a format; none together with a !condition is not generated "
+    "(the code compares None with == / != instead of refusing)",
+    "a node without declared dimensions takes scalar values only; a function delivering an array to a scalar node returns at least 2 elements "
+    "(numpy converts a 1-element array to a scalar)",
     "tolerance verdicts are judged only when robust (10% away from the boundary 1e-8 + 1e-6*|b|)",
     "!condition expressions come from the C18 logical grammar with {?} bound to the node; their value is computed by the C18 model/specification",
     "re.match is a parameter: its verdict on the final value is computed by the harness and handed to model and specification",
@@ -38,8 +46,16 @@ EXPLANATION = ("theorems: the validation loop accepts a node list iff every node
                "conversion to the node's unit")
 
 LUNITS = ["m", "cm", "km", "mm"]
+CONTEXT = ["k float = 3 m", "n int = 4", "w str = 'ab'", "j int = 2 m"]
+CONTEXT_ROWS = [["k", "float", 3.0, "m"], ["n", "int", 4, None], ["w", "str", "ab", None], ["j", "int", 2, "m"]]
 KMAP = {"m": 1.0, "cm": 0.01, "km": 1000.0, "mm": 0.001, "[x]": 2.0}
-WORDS = ["ab", "cd", "ab1", "x", "Tina", "abc"]
+WORDS = ["ab", "cd", "ab1", "x", "Tina", "abc", ""]
+FORMATS = ["[a-z]+", "[a-z]+$", "[a-c]+[0-9]?$", "T", ".{2}$", "[A-Z][a-z]*$", "[a-zA-Z0-9]+$", "^[a-z]*$", "^[a-zA-Z_-]+$", "[a-z]*[0-9]*$"]
+
+
+def sq(w):
+    """a string literal of DIP text (None = the keyword none)"""
+    return "none" if w is None else "'%s'" % w
 
 
 def gen_tables(ctx):
@@ -79,12 +95,43 @@ def cond_wrap(rng, cmp_):
     return cmp_
 
 
+def multi_cond(rng, ref, unit, units, partner_node):
+    """A condition that uses the own value {?} two or three times against different partners: another typed node (other
+    unit), a literal with unit, a unit-less literal (read in the node's own unit)."""
+    parts = []
+    if partner_node and rng.random() < 0.75:
+        kinds = ["node"] + rng.sample(["lit-plain", "lit-plain", "lit-unit"], rng.choice([1, 2]))
+        if rng.random() < 0.3:
+            rng.shuffle(kinds)
+    else:
+        kinds = rng.sample(["lit-unit", "lit-plain", "lit-plain"], rng.choice([2, 3]))
+    for kind in kinds:
+        op = rng.choice(["lt", "gt", "le", "ge"])
+        if kind == "node":
+            b = ["lit", "{?%s}" % partner_node]
+        elif kind == "lit-unit" and unit:
+            u2 = rng.choice(units)
+            b = ["lit", fnum(ref * KMAP[unit] / KMAP[u2] * rng.choice([1.5, 0.75, 1 + 3e-6, 1 - 3e-6, 1])) + " " + u2]
+        else:
+            # a unit-less bound is read in the node's own unit: anywhere between a thousandth and a thousand times the value
+            b = ["lit", fnum(ref * rng.choice([1.5, 0.75, 0.5, 2.0, 30.0, 0.03, 1 + 3e-6, 1 - 3e-6]))]
+        a = ["lit", "{?}"]
+        if rng.random() < 0.25:
+            a, b = b, a
+        parts.append(["bin", op, a, b])
+    e = parts[0]
+    for p in parts[1:]:
+        e = ["bin", rng.choice(["and", "and", "or"]), e, p]
+    return c18.wf_fix(e, c18.LOG_LVL)
+
+
 def gen_target(rng, name, custom, imported):
     """A constrained node: definition + property lines, modifications, the value it starts with (`initial`) and ends with (`final`).
     Constraints are built around the final value, for imported nodes around the initial one (the source must be valid on its own)."""
     t = Target()
     t.name = name
-    t.kind = rng.choice(["float", "float", "int", "int", "str", "bool", "array", "array"])
+    t.kind = rng.choice(["float", "float", "int", "int", "str", "str", "bool", "array", "array"] + ([] if imported else ["fn", "fn"]))
+    t.fn = None
     t.lines, t.mods = [], []          # mods: right-hand sides "<value> <unit>"
     t.options, t.cond_ast, t.fmt, t.dims = [], None, None, []
     t.declared = False
@@ -140,6 +187,8 @@ def gen_target(rng, name, custom, imported):
                 a, b = b, a
                 op = {"lt": "gt", "gt": "lt", "le": "ge", "ge": "le"}.get(op, op)
             t.cond_ast = c18.wf_fix(cond_wrap(rng, ["bin", op, a, b]) if not imported else ["bin", op, a, b], c18.LOG_LVL)
+            if not imported and rng.random() < 0.5:
+                t.cond_ast = multi_cond(rng, ref, t.unit, units, "k")
     elif t.kind == "int":
         t.unit = rng.choice([None, None, "m", "cm", "km"] + (["[x]"] if custom else []))
         us = " " + t.unit if t.unit else ""
@@ -152,18 +201,19 @@ def gen_target(rng, name, custom, imported):
             t.final = v2
         ref = t.initial if imported else t.final
         if rng.random() < 0.55:
-            opts = sorted({max(1, ref + rng.choice([0, 0, 1, -1, 2, 3])) for _ in range(rng.randint(1, 4))})
-            # written in a finer unit in which they are integers
+            # written as integers of a finer unit: in the node's unit they may lie between the integers (90 s = 1.5 min)
             finer = [u for u in (["m", "cm", "mm"] if t.unit in ("m", "cm", "km", "[x]") else []) if t.unit and KMAP[u] <= KMAP[t.unit]]
-            u2 = rng.choice(finer) if (finer and rng.random() < 0.6) else t.unit
+            u2 = rng.choice(finer) if (finer and rng.random() < 0.7) else t.unit
             f = int(round(KMAP[t.unit] / KMAP[u2])) if u2 else 1
+            offs = [0, 0, 1, -1, 2, 3] + ([0.5, 0.5, 0.3, -0.5, 0.9] if f >= 10 else [])
+            opts = sorted({int(round(max(0.1, ref + rng.choice(offs)) * f)) for _ in range(rng.randint(1, 4))})
             u2s = " " + u2 if u2 else ""
             if rng.random() < 0.5:
                 for o in opts:
-                    t.lines.append("  = %d%s" % (o * f, u2s))
+                    t.lines.append("  = %d%s" % (o, u2s))
             else:
-                t.lines.append("  !options [%s]%s" % (",".join(str(o * f) for o in opts), u2s))
-            t.options = [["num", float(o * f), u2] for o in opts]
+                t.lines.append("  !options [%s]%s" % (",".join(str(o) for o in opts), u2s))
+            t.options = [["num", float(o), u2] for o in opts]
         if rng.random() < 0.7:
             # bounds between the integers: written directly or arising from a unit conversion
             off = rng.choice([0, 0.5, -0.5, 0.3, -0.3, 0.7, -0.7, 1, -1, 0.999999, 4e-7])
@@ -184,18 +234,29 @@ def gen_target(rng, name, custom, imported):
                 cmp_ = ["bin", rng.choice(["and", "or"]), cmp_,
                         ["bin", "lt" if off2 > 0 else "gt", ["lit", "{?}"], ["lit", fnum(ref + off2) + us]]]
             t.cond_ast = c18.wf_fix(cmp_, c18.LOG_LVL)
+            if not imported and rng.random() < 0.3:
+                t.cond_ast = multi_cond(rng, ref, t.unit, [u for u in LUNITS if t.unit], "j" if t.unit else "n")
     elif t.kind == "str":
         v = rng.choice(WORDS)
-        t.lines.append("%s str = '%s'" % (name, v))
+        how = rng.random()
+        if how < 0.12 and not imported:
+            # the value arrives by injection from another node
+            t.extra_ctx.append("label str = %s" % sq(v))
+            t.lines.append("%s str = {?label}" % name)
+        elif how < 0.2 and not imported:
+            v = None
+            t.lines.append("%s str = none" % name)
+        else:
+            t.lines.append("%s str = %s" % (name, sq(v)))
         t.initial = t.final = v
         for _ in range(rng.choice([0, 0, 1, 2])):
-            v2 = rng.choice(WORDS)
-            t.mods.append("'%s'" % v2)
+            v2 = rng.choice(WORDS + ([None] if not imported else []))
+            t.mods.append(sq(v2))
             t.final = v2
         ref = t.initial if imported else t.final
         if rng.random() < 0.5:
-            opts = rng.sample(WORDS, rng.randint(1, 3))
-            if imported and ref not in opts:
+            opts = rng.sample([w for w in WORDS if w], rng.randint(1, 3))
+            if imported and ref and ref not in opts:
                 opts.append(ref)
             if rng.random() < 0.5:
                 for o in opts:
@@ -203,11 +264,11 @@ def gen_target(rng, name, custom, imported):
             else:
                 t.lines.append("  !options [%s]" % ",".join('"%s"' % o for o in opts))
             t.options = [["str", o] for o in opts]
-        if rng.random() < 0.5:
-            t.fmt = rng.choice(["[a-z]+", "[a-z]+$", "[a-c]+[0-9]?$", "T", ".{2}$", "[A-Z][a-z]*$", "[a-zA-Z0-9]+$"])
+        if rng.random() < 0.6:
+            t.fmt = rng.choice(FORMATS)
             t.lines.append("  !format '%s'" % t.fmt)
-        if rng.random() < 0.4:
-            w = ref if (imported or rng.random() < 0.4) else rng.choice(WORDS)
+        if rng.random() < 0.4 and t.final is not None and t.initial is not None:
+            w = ref if ((imported or rng.random() < 0.4) and ref) else rng.choice([w for w in WORDS if w])
             a, b = ["lit", "{?}"], ["lit", w]
             if rng.random() < 0.3:
                 a, b = b, a
@@ -226,6 +287,56 @@ def gen_target(rng, name, custom, imported):
             else:
                 t.cond_ast = rng.choice([["lit", "{?}"], ["pre", "not", ["lit", "{?}"]],
                                          ["bin", "eq", ["lit", "{?}"], ["lit", rng.choice(["true", "false"])]]])
+    elif t.kind == "fn":
+        # the value is delivered by a registered function: python scalar / list, numpy, or a typed DIP value (other unit)
+        import numpy as np
+        from scinumtools.dip.datatypes import FloatType, IntegerType
+        as_int = rng.random() < 0.4
+        rank = rng.choice([0, 1, 1, 2])
+        t.unit = None if as_int else "m"
+        ext = [rng.randint(1, 3) for _ in range(rank)]
+        txt = []
+        for n in ext:
+            form = rng.choice(["exact", "exact", "lo", "hi", "both"])
+            b = max(n + rng.choice([0, 0, 0, 1, -1]), 1)
+            lo, hi = {"exact": (b, b), "lo": (b, None), "hi": (None, b), "both": (max(b - 1, 1), b)}[form]
+            txt.append("%d" % b if form == "exact" else "%s:%s" % ("" if lo is None else lo, "" if hi is None else hi))
+            t.dims.append([lo, hi])
+        r = rng.random()
+        if r < 0.55:
+            shape = list(ext)
+        elif r < 0.7:
+            shape = list(ext[:max(rank - 1, 0)]) if rank else [rng.randint(2, 3)]    # lower rank / an array for a scalar node
+        elif r < 0.8:
+            shape = (list(ext) + [rng.randint(1, 2)]) if rank else [rng.randint(2, 3), 2]
+        elif r < 0.9 and rank:
+            shape = [0]            # an empty list has one axis of extent 0, whatever was declared
+        else:
+            shape = [max(1, n + rng.choice([1, -1])) for n in ext]
+        val = nested(rng, shape, as_int)
+        if rng.random() < 0.2:
+            val = 0 if (not shape and as_int) else (0.0 if not shape else val)
+        form = rng.choice(["plain", "numpy", "typed"])
+        expected = val
+        if form == "plain":
+            result = val
+        elif form == "numpy":
+            result = np.array(val, dtype=int if as_int else float) if shape else (np.int64(val) if as_int else np.float64(val))
+        elif as_int:
+            result = IntegerType(val)
+        else:
+            u2 = rng.choice(["m", "cm", "km"])
+            result = FloatType(val, u2)
+
+            def conv(x):
+                return [conv(y) for y in x] if isinstance(x, list) else x * KMAP[u2] / KMAP["m"]
+            expected = conv(val)
+        t.fn = ("f_" + name, result)
+        t.lines.append("%s %s%s = (f_%s)%s" % (name, "int" if as_int else "float", "[%s]" % ",".join(txt) if rank else "",
+                                                name, " m" if t.unit else ""))
+        t.initial = t.final = expected
+        t.shape0 = t.shape = list(shape)
+        t.kind = "array"
     else:   # array with dimension bounds: declared rank 1-2, value rank 0-3
         as_int = rng.random() < 0.4
         rank = rng.choice([1, 1, 2])
@@ -296,6 +407,12 @@ def gen_target(rng, name, custom, imported):
     return t
 
 
+def deep_close(a, b):
+    if isinstance(a, (list, tuple)) or isinstance(b, (list, tuple)):
+        return isinstance(a, (list, tuple)) and isinstance(b, (list, tuple)) and len(a) == len(b) and all(deep_close(x, y) for x, y in zip(a, b))
+    return c18.close(a, b, None)
+
+
 def value_json(t, v):
     if v is None:
         return None
@@ -327,7 +444,7 @@ def _run(ctx, rng, tabs, drv18, count, tmpdir, DIP, Format):
         mode = rng.choice(["plain", "plain", "plain", "plain", "local-group", "local-node", "remote"])
         custom = mode != "remote" and rng.random() < 0.3
         ctxt = ["$unit x = 2 m"] if custom else []
-        ctxt += ["k float = 3 m", "n int = 4", "w str = 'ab'"][:rng.randint(1, 3)]
+        ctxt += CONTEXT
         targets = [gen_target(rng, "q", custom, mode != "plain")]
         if rng.random() < 0.3:
             targets.append(gen_target(rng, "r", custom, mode != "plain"))
@@ -362,7 +479,7 @@ def _run(ctx, rng, tabs, drv18, count, tmpdir, DIP, Format):
             for _, full, val, _ in records(mode, t):
                 if val is None:
                     continue
-                nodes = [["k", "float", 3.0, "m"], ["n", "int", 4, None], ["w", "str", "ab", None]]
+                nodes = [list(r) for r in CONTEXT_ROWS]
                 nodes.append([full, {"float": "float", "int": "int", "str": "str", "bool": "bool"}[t.kind], val, t.unit])
                 reqs.append({"p": "C18", "k": "log", "table": tabs["log"]["table"], "steps": tabs["log"]["steps"],
                              "units": unit_rows(custom), "nodes": nodes, "autoref": full, "ast": t.cond_ast, "blanks": []})
@@ -410,9 +527,20 @@ def _run(ctx, rng, tabs, drv18, count, tmpdir, DIP, Format):
             with warnings.catch_warnings():
                 warnings.simplefilter("ignore")
                 with DIP() as d:
+                    for t in targets:
+                        if t.fn:
+                            d.add_function(t.fn[0], (lambda data, r=t.fn[1]: copy.deepcopy(r)))
                     d.add_string(text)
                     env = d.parse()
-                data = env.data(format=Format.TUPLE)
+                data = {}
+                for node in env.nodes:
+                    v = node.value
+                    if v is None:
+                        data[node.name] = None
+                    elif getattr(v, "unit", None) is not None and hasattr(v, "convert"):
+                        data[node.name] = (v.value, v.unit)
+                    else:
+                        data[node.name] = v.value
             imp = True
         except Exception as e:
             imp, data = False, repr(e)[:200]
@@ -429,8 +557,9 @@ def _run(ctx, rng, tabs, drv18, count, tmpdir, DIP, Format):
                         judged = False
                     nd["cond"] = cm if isinstance(cm, bool) else "err"
                     nd["cond_spec"] = cs if isinstance(cs, bool) else ("unknown" if cs == "unknown" else False)
-                if t.fmt is not None and val is not None:
-                    nd["fmt"] = re.match(t.fmt, val) is not None
+                if t.fmt is not None:
+                    # re.match on a missing value raises: no match
+                    nd["fmt"] = (re.match(t.fmt, val) is not None) if val is not None else False
                 nodes.append(nd)
         reqs.append({"p": "C16", "k": "env", "units": unit_rows(custom), "nodes": nodes})
         meta.append((mode, shown, targets, imp, data, judged))
@@ -486,10 +615,10 @@ def _run(ctx, rng, tabs, drv18, count, tmpdir, DIP, Format):
                     elif t.kind == "int":
                         ok = (got == (val, t.unit)) if t.unit else got == val
                     elif t.kind in ("str", "bool"):
-                        ok = got == val
+                        ok = got == val and type(got) == type(val)
                     else:
                         g = got[0] if isinstance(got, tuple) else got
-                        ok = g == val
+                        ok = deep_close(g, val) and (not isinstance(got, tuple) or got[1] == t.unit)
                     if not ok:
                         ctx.violation("returned-value:" + t.kind, "accepted environment returns %r for %s, the constraints were judged on the final value %r: %s" %
                                       (got, full, val, text.replace("\n", " / ")[:300]), replay)
